@@ -91,6 +91,106 @@ var c06Derived = map[string]string{
 	"AST.Comments":              "comments are preserved by the CLI formatter, not by SQL()/Format (documented)",
 }
 
+// c06RedundantWith: at every store into field k ("Type.Field") in the parser, the stored value (or the elements appended
+// to it) also flows - directly or through calls - into a store to another field of the same object. Returns that field's
+// key, or "" when some store has no such companion.
+func c06RedundantWith(p *core.Prog, astPath, k string) string {
+	companion := ""
+	found := false
+	for _, fn := range p.SrcFuncs("pkg/sql/parser") {
+		for _, b := range fn.Blocks {
+			for _, in := range b.Instrs {
+				st, ok := in.(*ssa.Store)
+				if !ok {
+					continue
+				}
+				fa, ok := st.Addr.(*ssa.FieldAddr)
+				if !ok {
+					continue
+				}
+				n := core.NamedOf(fa.X.Type())
+				if n == nil || n.Obj().Pkg() == nil || n.Obj().Pkg().Path() != astPath || n.Obj().Name()+"."+core.FieldName(fa.X.Type(), fa.Field) != k {
+					continue
+				}
+				if c, isC := st.Val.(*ssa.Const); isC && (c.Value == nil || isZeroConst(c)) {
+					continue
+				}
+				found = true
+				// sources: the value, or what is appended
+				var srcs []ssa.Value
+				if call, ok := st.Val.(*ssa.Call); ok && core.IsBuiltinCall(&call.Call, "append") && len(call.Call.Args) == 2 {
+					srcs = append(srcs, argLeaves(call.Call.Args[1])...)
+				} else {
+					srcs = append(srcs, st.Val)
+				}
+				// forward closure
+				derived := map[ssa.Value]bool{}
+				work := append([]ssa.Value{}, srcs...)
+				for steps := 0; len(work) > 0 && steps < 200; steps++ {
+					v := work[len(work)-1]
+					work = work[:len(work)-1]
+					if derived[v] {
+						continue
+					}
+					derived[v] = true
+					for _, ref := range core.Referrers(v) {
+						switch x := ref.(type) {
+						case *ssa.Call:
+							work = append(work, x)
+						case *ssa.MakeInterface:
+							work = append(work, x)
+						case *ssa.ChangeType:
+							work = append(work, x)
+						case *ssa.ChangeInterface:
+							work = append(work, x)
+						case *ssa.Phi:
+							work = append(work, x)
+						case *ssa.Extract:
+							work = append(work, x)
+						case *ssa.Slice:
+							work = append(work, x)
+						case *ssa.Store:
+							// into a varargs array / local cell: follow the cell's base
+							if ia, ok := x.Addr.(*ssa.IndexAddr); ok && x.Val == v {
+								work = append(work, ia.X)
+							}
+						}
+					}
+				}
+				here := ""
+				for d := range derived {
+					for _, ref := range core.Referrers(d) {
+						st2, ok := ref.(*ssa.Store)
+						if !ok || st2.Val != d || st2 == st {
+							continue
+						}
+						fa2, ok := st2.Addr.(*ssa.FieldAddr)
+						if !ok || !sameObject(fa2.X, fa.X) && fa2.X != fa.X {
+							continue
+						}
+						g := n.Obj().Name() + "." + core.FieldName(fa2.X.Type(), fa2.Field)
+						if g != k && (here == "" || g < here) {
+							here = g
+						}
+					}
+				}
+				if here == "" {
+					return ""
+				}
+				if companion == "" {
+					companion = here
+				} else if companion != here {
+					return ""
+				}
+			}
+		}
+	}
+	if !found {
+		return ""
+	}
+	return companion
+}
+
 func runC06(c *Ctx) {
 	r, p := c.R, c.P
 	r.Summary = "C06 (serialising and re-parsing gives the same tree; formatting is stable): decided clause (necessary condition) = a serialiser cannot preserve what it never reads: every (node type, field) the parser populates is read by the code reachable from each serialiser family's entry (AST.SQL / SQL() methods, AST.Format / Format methods); the families agree on the fields they read; every statement type the parser returns has a SQL() method."
@@ -148,6 +248,10 @@ func runC06(c *Ctx) {
 					reportedType[t] = true
 					r.Violate("ser-field", fam+"|"+t+".*", P[k], "the parser builds "+t+" nodes but no function of the "+fam+" family reads any field of "+t+": such nodes are dropped or printed as a placeholder")
 				}
+				continue
+			}
+			if g := c06RedundantWith(p, astPath, k); g != "" && reads[g] {
+				r.OK("ser-field", fam+"|"+k, P[k], "second representation of what is printed from "+g+": wherever the parser fills this field it stores a value computed from the same source into "+g+" of the same node")
 				continue
 			}
 			r.Violate("ser-field", fam+"|"+k, P[k], "the parser populates "+k+" but the "+fam+" family never reads it: the information is lost when the tree is serialised")
